@@ -5,6 +5,7 @@ import (
 	"io"
 	"net"
 	"reflect"
+	"strings"
 	"sync"
 	"time"
 
@@ -31,6 +32,7 @@ type hsScript struct {
 	Extras   []string `json:"extras"`
 	Stall    int      `json:"stall"`
 	Redial   bool     `json:"redial"`
+	Cfg      string   `json:"cfg"`    // "acct" | "auth" | "vsa": the client also advertises an application of that type its dictionary lacks
 	Shared   bool     `json:"shared"` // another connection of the same client is up and its peer repeats its CEA during this dial
 }
 type cerContent struct {
@@ -76,6 +78,8 @@ func errClass(err error) string {
 		return "none"
 	case err == sm.ErrHandshakeTimeout:
 		return "timeout"
+	case strings.HasPrefix(err.Error(), "Client attempts to advertise unsupported application"):
+		return "config"
 	case err == smparser.ErrMissingResultCode, err == smparser.ErrMissingOriginHost, err == smparser.ErrMissingOriginRealm:
 		return "malformed"
 	case err == smparser.ErrMissingApplication, err == smparser.ErrNoCommonApplication:
@@ -226,6 +230,19 @@ func runHandshake(id int, sc *hsScript, configured bool) hsLine {
 		VendorSpecificApplicationID: []*diam.AVP{diam.NewAVP(avp.VendorSpecificApplicationID, avp.Mbit, 0, &diam.GroupedAVP{AVP: []*diam.AVP{
 			diam.NewAVP(avp.VendorID, avp.Mbit, 0, datatype.Unsigned32(10415)),
 			diam.NewAVP(avp.AuthApplicationID, avp.Mbit, 0, datatype.Unsigned32(16777251))}})},
+	}
+	switch sc.Cfg {
+	case "acct":
+		l.Want.Acct = append(l.Want.Acct, abs.B4(12345))
+		cli.AcctApplicationID = append(cli.AcctApplicationID, diam.NewAVP(avp.AcctApplicationID, avp.Mbit, 0, datatype.Unsigned32(12345)))
+	case "auth":
+		l.Want.Auth = append(l.Want.Auth, abs.B4(12345))
+		cli.AuthApplicationID = append(cli.AuthApplicationID, diam.NewAVP(avp.AuthApplicationID, avp.Mbit, 0, datatype.Unsigned32(12345)))
+	case "vsa":
+		l.Want.VSA = append(l.Want.VSA, append(append(abs.B4(10415), 1), abs.B4(12345)...))
+		cli.VendorSpecificApplicationID = append(cli.VendorSpecificApplicationID, diam.NewAVP(avp.VendorSpecificApplicationID, avp.Mbit, 0, &diam.GroupedAVP{AVP: []*diam.AVP{
+			diam.NewAVP(avp.VendorID, avp.Mbit, 0, datatype.Unsigned32(10415)),
+			diam.NewAVP(avp.AuthApplicationID, avp.Mbit, 0, datatype.Unsigned32(12345))}}))
 	}
 	if sc.Redial {
 		// an earlier, successful dial of the same client from another local address
@@ -392,7 +409,7 @@ func runHandshake(id int, sc *hsScript, configured bool) hsLine {
 	if l.Obs.NCer > 0 {
 		l.Obs.Cer = parseCERContent(&msgs[0])
 	} else {
-		l.Obs.Cer = cerContent{HostIPs: [][]int{}, Auth: [][]int{}, Acct: [][]int{}, VSA: [][]int{}, SVID: [][]int{}}
+		l.Obs.Cer = cerContent{HostIPs: [][]int{}, Auth: [][]int{}, Acct: [][]int{}, VSA: [][]int{}, SVID: [][]int{}, OSID: [][]int{}, FW: [][]int{}, Vendor: [][]int{}}
 	}
 	mu.Lock()
 	defer mu.Unlock()
